@@ -151,23 +151,26 @@ def sameObject (a b : J) : Bool :=
   getKind a == getKind b && apiGroup (getAPIVersion a) == apiGroup (getAPIVersion b) && getName a == getName b &&
   getNamespace a == getNamespace b
 
+/-- the hook's desired children as metacontroller compares them: namespace defaulted to the parent's, plus what it adds
+    itself (the decorator's marker; with selector generation the controller-uid label) -/
+def desiredCompared (s : SyncCase) (h : Rec) : List J :=
+  let parentNs := getNamespace (s.hookParent h)
+  let desired := (s.respChildren h).map (fun d => if getNamespace d == "" && parentNs != "" then
+      (match setNestedField d (.str parentNs) ["metadata", "namespace"] with | .ok x => x | .error _ => d) else d)
+  if s.composite then
+    (if s.cfg.generateSelector then desired.map (fun d =>
+        let lbl := (getLabels d).getD []
+        if hasKey "controller-uid" lbl then d
+        else setStringMapAt d ["metadata", "labels"] (some (setKey "controller-uid" (.str s.parentUID) lbl))) else desired)
+  else desired.map (stampMarker s.dcfg)
+
 def c06 (s : SyncCase) : Option String :=
   -- dynamic apply only; for rolling strategies the desired state per child comes from several hook calls
   if s.composite && (s.cfg.ssa || s.cfg.anyRolling) then none else
   match s.mainHook with
   | none => none
   | some h =>
-    let parentNs := getNamespace (s.hookParent h)
-    let desired := (s.respChildren h).map (fun d => if getNamespace d == "" && parentNs != "" then
-        (match setNestedField d (.str parentNs) ["metadata", "namespace"] with | .ok x => x | .error _ => d) else d)
-    -- what metacontroller itself adds to the hook's objects before comparing: the decorator's marker,
-    -- and with selector generation the controller-uid label
-    let desired := if s.composite then
-        (if s.cfg.generateSelector then desired.map (fun d =>
-            let lbl := (getLabels d).getD []
-            if hasKey "controller-uid" lbl then d
-            else setStringMapAt d ["metadata", "labels"] (some (setKey "controller-uid" (.str s.parentUID) lbl))) else desired)
-      else desired.map (stampMarker s.dcfg)
+    let desired := desiredCompared s h
     let observed := (flatHookObjects (s.hookChildren h)).map (·.2.2)
     -- a desired child without a usable apiVersion/kind/name is filed under a group of its own by the code; not judged here
     if desired.any (fun d => getAPIVersion d == "" || getKind d == "" || getName d == "") then none else
